@@ -24,7 +24,7 @@ RULE = ("Rebalancing.make_trades on generated (holdings, targets, quotes, thresh
         "trunc(imbalance). Non-trivial = threshold > 0 with a crafted at/below/above target, or whole-lot mode with a sub-lot "
         "imbalance, or a held contract absent from the target.")
 ASSUMPTIONS = ["ties within 1e-12 relative of the threshold / 1e-9 of an integer lot accept both outcomes",
-               "whole-lot mode: the threshold may be applied to the truncated or untruncated imbalance (DESIGN 4.2-g)"]
+               "whole-lot mode: the threshold is compared with the weight of the imbalance itself (untruncated), as the property words it"]
 REQUIRED = ["C12:exact-threshold", "C12:trade-set", "C12:trade-wellformed", "C12:fractional-quantity", "C12:whole-lot-truncation", "C12:no-exception"]
 REQUIRED_CATS = ["mode:exact-at", "mode:exact-notch-below", "mode:exact-notch-above", "mode:at", "mode:below", "mode:above", "mode:sublot", "mode:absent-held", "whole-lot", "fractional"]
 REQUIRED_HITS = ["Rebalancing.make_trades"]
@@ -186,10 +186,6 @@ def case(ctx, i, tier):
                 if abs(imb) < 1:
                     exp = False
                 if abs(abs(imb) - round(abs(imb))) < 1e-9:
-                    amb = True
-                # 4.2-g: threshold on the truncated imbalance would also be a valid reading
-                wt = abs(math.trunc(imb) * px * c.multiplier / nlv)
-                if c in tmap and (wt >= thr) != (w >= thr):
                     amb = True
         got = c in seen
         if not amb:
